@@ -16,15 +16,41 @@ from py2coq import Target  # noqa: E402
 
 DS = "distributed_shampoo/distributed_shampoo.py"
 UTILS = "distributed_shampoo/utils/shampoo_utils.py"
+TYPES = "distributed_shampoo/shampoo_types.py"
+PLIST = "distributed_shampoo/utils/shampoo_preconditioner_list.py"
 HYPER = "From Shampoo Require Import Hyper.\n"
+OPTIM = "From Shampoo Require Import Optimizer.\n"        # for the sum type root_override (OvInt | OvList)
+
+G_EPS, G_B2 = ("self.epsilon", "epsilon", "pynum"), ("self.beta2", "beta2", "pynum")
+PC_ATOMS = [("self.num_tolerated_failed_amortized_computations", "num_tolerated", "pynum"), ("self.ignored_dims", "ignored_dims", "list Z")]
+ROOTS = dict(types={"inv_root_override": "root_override"}, calls={"BaseShampooPreconditionerList._get_inverse_roots_from_override_with_high_order_default": "get_inverse_roots_with_default"})
+DISTRIBUTE = dict(qualname="{cls}._distribute_buffer_sizes", coq_name="distribute_buffer_sizes")
 
 SPLIT = dict(qualname="{cls}._split_tensor_block_recovery", coq_name="split_tensor_block_recovery", fuel="S (S (length original_shape))")
 
 SPECS = {
-    "C01": ("GenC01", "EquivC01.v", "", [
+    "C01": ("GenC01", "EquivC01.v", OPTIM, [
         Target(DS, "DistributedShampoo.step", mode="exprs", names=["perform_amortized_computation", "use_grafting_method"],
                atoms=[("step.item()", "step", "Z"), ("group[PRECONDITION_FREQUENCY]", "precondition_frequency", "Z"),
                       ("group[START_PRECONDITIONING_STEP]", "start_preconditioning_step", "Z"), ("grafting_config_not_none", "grafting_config_not_none", "bool")]),
+        Target(PLIST, "BaseShampooPreconditionerList._get_inverse_roots_from_override_with_high_order_default",
+               coq_name="get_inverse_roots_with_default", types={"inv_root_override": "root_override"}),
+        Target(PLIST, "ShampooPreconditionerList._get_inverse_roots_from_override", coq_name="shampoo_get_inverse_roots", **ROOTS),
+        Target(PLIST, "EigenvalueCorrectedShampooPreconditionerList._get_inverse_roots_from_override", coq_name="eigcorr_get_inverse_roots", **ROOTS),
+    ]),
+    "C13": ("GenC13", "EquivC13.v", "", [
+        Target(PLIST, "BaseShampooPreconditionerList._raise_exception_if_failure_tolerance_exceeded", coq_name="raise_exception_if_failure_tolerance_exceeded",
+               atoms=[("self._masked_failed_amortized_computation_counter_index_list", "masked_index_list", "list Z"),
+                      ("self._preconditioner_config.num_tolerated_failed_amortized_computations", "num_tolerated", "Z")],
+               state=[("self._local_failed_amortized_computation_counter_list", "local_counter_list", "list Z")]),
+    ]),
+    "C14": ("GenC14", "EquivC14.v", "", [
+        Target("distributed_shampoo/utils/shampoo_ddp_distributor.py", **{**DISTRIBUTE, "qualname": "DDPDistributor._distribute_buffer_sizes"}, prefix="ddp_",
+               atoms=[("self._group_size", "group_size", "Z")]),
+        Target("distributed_shampoo/utils/shampoo_hsdp_distributor.py", **{**DISTRIBUTE, "qualname": "HSDPDistributor._distribute_buffer_sizes"}, prefix="hsdp_",
+               atoms=[("self._dist_group_size", "group_size", "Z")]),
+        Target("distributed_shampoo/utils/shampoo_hybrid_shard_distributor.py", **{**DISTRIBUTE, "qualname": "HybridShardDistributor._distribute_buffer_sizes"}, prefix="hybrid_",
+               atoms=[("self._dist_group_size", "group_size", "Z")]),
     ]),
     "C05": ("GenC05", "EquivC05.v", "", [Target(UTILS, "merge_small_dims")]),
     "C04": ("GenC04", "EquivC04.v", "", [
@@ -42,6 +68,16 @@ SPECS = {
                types={"max_preconditioner_dim": "pynum", "precondition_frequency": "pynum", "start_preconditioning_step": "pynum", "inv_root_override": "iro_t"},
                atoms=[("preconditioner_config.ignored_dims", "ignored_dims", "list Z")],
                returns=["beta3", "start_preconditioning_step"]),
+        # the __post_init__ guards of the config dataclasses; sites 15.. so that every raise of the module has its own number
+        Target(TYPES, "AdaGradGraftingConfig.__post_init__", coq_name="adagrad_post_init", atoms=[G_EPS], site_base=15),
+        Target(TYPES, "RMSpropGraftingConfig.__post_init__", coq_name="rmsprop_post_init", atoms=[G_EPS, G_B2], site_base=16,
+               calls={"super().__post_init__": "adagrad_post_init"}),
+        Target(TYPES, "PreconditionerConfig.__post_init__", coq_name="preconditioner_post_init", atoms=PC_ATOMS, site_base=17),
+        # which __post_init__ runs for the other config classes (resolved through the class hierarchy of the source)
+        Target(TYPES, "SGDGraftingConfig.__post_init__", mode="alias", coq_name="sgd_post_init", names=["AbstractDataclass"]),
+        Target(TYPES, "AdamGraftingConfig.__post_init__", mode="alias", coq_name="adam_post_init", names=["AbstractDataclass"]),
+        Target(TYPES, "ShampooPreconditionerConfig.__post_init__", mode="alias", coq_name="shampoo_pc_post_init", names=["AbstractDataclass"]),
+        Target(TYPES, "EigenvalueCorrectedShampooPreconditionerConfig.__post_init__", mode="alias", coq_name="eigcorr_pc_post_init", names=["AbstractDataclass"]),
     ]),
 }
 
